@@ -872,6 +872,11 @@ class Fn:
                                 facts._inst[0] += 1
                                 inst = facts._inst[0]
                                 evs2, retv, ret_held = instantiate_path(cp, args, inst, held_here, callee)
+                                # decisions the helper took on its parameters may be decided by the
+                                # caller's arguments or by what this path already knows
+                                memo_i = decisions_feasible(evs2, memo, facts)
+                                if memo_i is None:
+                                    continue
                                 if cp.end != 'return':
                                     if cp.end in ('diverge', 'cut'):
                                         out.append(Path(events + evs2, cp.end, trail))
@@ -889,7 +894,7 @@ class Fn:
                                         g2[dest['local']] = new_g[0]
                                     elif dest['local'] in g2 and not guard_kind(self.lty.get(dest['local'], '')):
                                         pass
-                                walk(t['t'], env2, memo, used, events + evs2, g2, trail, heap2)
+                                walk(t['t'], env2, memo_i, used, events + evs2, g2, trail, heap2)
                                 if count[0] > budget:
                                     raise PathBudget(self.name)
                             return
@@ -1200,6 +1205,53 @@ def lin(t):
             if lb is not None and strip_uids(lb) == strip_uids(rb):
                 return (None, lk - rk)
     return (t, 0)
+
+
+def _label_ok(label, value):
+    if label.startswith('!'):
+        return value not in label[1:].split('|')
+    return label == value
+
+
+def decisions_feasible(evs, memo, facts):
+    """re-evaluate the decision atoms of an instantiated helper path: returns the caller's knowledge
+    extended by them, or None when one of them contradicts a constant, a value built on the path, or
+    an earlier decision"""
+    m = dict(memo)
+    for e in evs:
+        if e.kind != 'atom':
+            continue
+        t, o = e.d['term'], e.d['outcome']
+        cv = const_value(t)
+        if cv is not None:
+            if o in ('true', 'false'):
+                if (o == 'true') != (cv == 1):
+                    return None
+            elif not _label_ok(o, str(cv)):
+                return None
+            continue
+        kv = known_variant(t, facts)
+        if kv is not None:
+            if not _label_ok(o, kv):
+                return None
+            continue
+        key, flipped = canon_decision(t)
+        okey, omap = option_decision(t)
+        if okey is not None:
+            lab = omap.get(o, o) if omap else o
+            key = okey
+            if okey[0] == 'od':
+                kv2 = known_variant(('discr', okey[1], ''), facts)
+                if kv2 is not None:
+                    if not _label_ok(lab, kv2):
+                        return None
+                    continue
+        else:
+            lab = flip_label(o) if flipped else o
+        if key in m and not memo_compatible(m[key], lab):
+            return None
+        m[key] = memo_update(m.get(key), lab)
+    return m
 
 
 def const_value(t):
